@@ -342,7 +342,7 @@ func rangeEffects(fn *ssa.Function, header *ssa.BasicBlock, body map[*ssa.BasicB
 			}
 			if ci, ok := r.(ssa.CallInstruction); ok && sortCall == nil {
 				n := calleeName(ci.Common())
-				if (strings.Contains(n, "Sort") || strings.HasPrefix(n, "sort.")) && len(ci.Common().Args) > 0 && ci.Common().Args[0] == ssa.Value(phi) {
+				if canonicalSort(n, ci.Common()) && len(ci.Common().Args) > 0 && ci.Common().Args[0] == ssa.Value(phi) {
 					sortCall = r
 					continue
 				}
@@ -503,6 +503,37 @@ func sameAddr(a, b ssa.Value) bool {
 	gb, ok2 := b.(*ssa.Global)
 	if ok1 && ok2 {
 		return ga == gb
+	}
+	return false
+}
+
+// canonicalSort: the call sorts its first argument by a total order, so the result does
+// not depend on the order of the input: the natural order of slices.Sort / sort.Strings /
+// sort.Ints, Rules.Sort (total pre-order proved under C11), or SortFunc with a library
+// comparison function. A SortFunc with any other comparator (a closure) is not accepted.
+func canonicalSort(name string, c *ssa.CallCommon) bool {
+	switch name {
+	case "slices.Sort", "sort.Strings", "sort.Ints", "sort.Float64s":
+		return true
+	}
+	if strings.HasSuffix(name, "aa.Rules).Sort") {
+		return true
+	}
+	if name == "slices.SortFunc" || name == "slices.SortStableFunc" {
+		if len(c.Args) == 2 {
+			if f, ok := c.Args[1].(*ssa.Function); ok {
+				fo := f
+				if o := f.Origin(); o != nil {
+					fo = o
+				}
+				if fo.Pkg != nil {
+					switch fo.Pkg.Pkg.Path() + "." + fo.Name() {
+					case "strings.Compare", "cmp.Compare":
+						return true
+					}
+				}
+			}
+		}
 	}
 	return false
 }
